@@ -31,7 +31,8 @@ def run(ctx, replay):
         "ConcurrentTaskSet, single / bulk / inline), cancellation with queued tasks (packageTask skip path), pool "
         "destruction and resize with queued work, OnceFunction never invoked, pipelines whose stages throw or filter, "
         "futures whose functor throws or is never run, TimedTask cancel / destruction, graph executors with "
-        "exceptions, parallel_for / for_each bodies that throw; ledger-counted closures and elements, SmallBufferAllocator "
+        "exceptions, parallel_for / for_each bodies that throw; container copies / moves / assignments into grown destinations, "
+        "small buffers freed on a thread that then exits; ledger-counted closures and elements, SmallBufferAllocator "
         "chunk balance per size class, allocation counting through the sanitizer malloc hooks as a leak cross-check; "
         "one process per scenario; distinct = scenario shapes")
     ctx.assumptions += ["each scenario stays inside the documented contract of the class it exercises "
